@@ -46,7 +46,8 @@ EXPLANATION = (
     'it; the import collectors unwrap containers alike. Decides these structural necessary '
     'conditions; does not decide lexical well-formedness of the whole output nor uniqueness of '
     'generated names.'
-    ' RD (decision drift, stonelint.conddrift): the tests of the functions this property is anchored in (stonelint.ownership) are compared with reference/conditions.json; a relation, polarity or connective changed over the same operands, or an operand purely added or dropped, is a violation; re-spellings and new or removed tests are not claimed.')
+    ' RD (decision drift, stonelint.conddrift): the tests of the functions this property is anchored in (stonelint.ownership) are compared with reference/conditions.json; a relation, polarity or connective changed over the same operands, or an operand purely added or dropped, is a violation; re-spellings and new or removed tests are not claimed.'
+    " RE (expression drift, stonelint.exprdrift): the same functions' attribute names, variable reads, simple statements, calls and arithmetic/slice literals are compared with reference/expressions.json; a substituted attribute or variable, a dropped call or assignment, swapped arguments or a changed literal is a violation; any other edit is not claimed.")
 ASSUMPTIONS = [
     'Backends are run with the options and route attributes they require (auth/host/style '
     'attributes present, client-args JSON of the documented shape): sites that only fail '
@@ -120,6 +121,8 @@ def run(pm, ctx):
     from ..conddrift import run_decisions
     from ..ownership import OWN
     run_decisions(pm, ctx, 'C17-RD', OWN['C17'])
+    from .. import exprdrift
+    exprdrift.run(pm, ctx, 'C17-RE', OWN['C17'])
 
 
 def _signature_ok(fn, nargs, kwargs):
